@@ -328,6 +328,10 @@ _RESET = {
     "std::option::Option::take": lambda args, targs=(): ("agg", "std::option::Option", "None", ()),
     "std::mem::take": lambda args, targs=(): _default_of(targs[0] if targs else None),
     "std::mem::replace": lambda args, targs=(): args[0] if args else ("unknown",),
+    # opt.take_if(pred): returns Some(v) and leaves None when pred(v) holds, otherwise returns None and leaves the place
+    # alone.  Modelled as `take` for the place: exact on the paths where the result is Some (where the handlers save the
+    # state); on the other paths the place is reported as cleared although it is untouched (see DESIGN 11.9).
+    "std::option::Option::take_if": lambda args, targs=(): ("agg", "std::option::Option", "None", ()),
     # opt.replace(v) / opt.insert(v): the place becomes Some(v)
     "std::option::Option::replace": lambda args, targs=(): ("agg", "std::option::Option", "Some", (("fld", "0", args[0]),)) if args else ("unknown",),
     "std::option::Option::insert": lambda args, targs=(): ("agg", "std::option::Option", "Some", (("fld", "0", args[0]),)) if args else ("unknown",),
@@ -908,6 +912,9 @@ class Terms:
             return args[0]
         if nm == "std::ops::Try::branch" and args:
             return ("trybranch", args[0])
+        if nm == "std::option::Option::take_if" and len(args) == 2:
+            # the value handed back is `opt.filter(pred)` of the value before the call
+            return ("call", "std::option::Option::filter", args, ("meta", "std::option::Option::filter", None))
         if nm in UNWRAP_OK or nm in UNWRAP_SOME:
             return ("payload", args[0], "Ok/Some")
         if nm == "std::boxed::box_assume_init_into_vec_unsafe" and args:
